@@ -372,7 +372,7 @@ func (in *inst) orderedSelect(sel *ast.SelectStmt, site string) ast.Stmt {
 				fmt.Fprintf(&b, "_vsc%d = nil\n", j)
 			}
 		}
-		b.WriteString("_vsHit = true\ndefault:\n}\n")
+		fmt.Fprintf(&b, "_vsHit = true\nverifsim.SelectHit(%q, %d)\ndefault:\n}\n", site, i)
 	}
 	b.WriteString("}\nif _vsHit {\nbreak\n}\n}\n")
 	pre := parseStmts(b.String())
@@ -701,6 +701,16 @@ func SelectBegin(site string, n int) int {
 		return h(site, n)
 	}
 	return -1
+}
+
+// SelectHitHook is told which case of a rewritten select was found ready on entry.
+var SelectHitHook func(site string, i int)
+
+// SelectHit reports that case i was ready when the select was entered.
+func SelectHit(site string, i int) {
+	if h := SelectHitHook; h != nil {
+		h(site, i)
+	}
 }
 
 // SelectNth returns the i-th element of permutation k of 0..n-1 (k = 0 is the
